@@ -58,6 +58,35 @@ def _outcome_root(v):
     return v
 
 
+def _mapped_root(v):
+    """v = phi(Some{f((N as Some).0)} | None{}) (a desugared `N.map(f)`, possibly under outcome-preserving wrappers, possibly nested):
+    the Option/Result N whose success is implied by v's success; None when v has no such shape. Only the success direction is implied
+    (v may be None although N was Some), so callers use it for `good` edges only."""
+    from val import walk as _walk
+    g = 0
+    cur = _outcome_root(v)
+    found = None
+    while g < 6:
+        g += 1
+        if cur.kind != "phi":
+            break
+        alts = [k for k in cur.kids if k.kind != "cycle"]
+        succ = [a for a in alts if a.kind == "agg" and a.d["agg"].get("variant") in ("Some", "Ok") and a.kids]
+        fail = [a for a in alts if a.kind == "agg" and a.d["agg"].get("variant") in ("None", "Err")]
+        if len(succ) != 1 or len(succ) + len(fail) != len(alts):
+            break
+        src = None
+        for x in _walk(succ[0].kids[0]):
+            if x.kind == "variant" and x.d.get("variant") in ("Some", "Ok") and x.kids:
+                src = _outcome_root(x.kids[0])
+                break
+        if src is None:
+            break
+        found = src
+        cur = src
+    return found
+
+
 def discr_switches(fn):
     """[(bb, subject_node)] for every switch on discriminant(X) in fn (subject not peeled)."""
     fv = vals(fn)
@@ -80,22 +109,35 @@ def success_edges(fn, node):
     good, bad = [], []
     for (b, subj) in discr_switches(fn):
         root = _outcome_root(subj)
+        mapped = False
         if root is not node:
-            continue
+            # a desugared `.map(f)` between the call and the switch: success of the mapped value implies success of the call
+            r2 = root
+            g = 0
+            while r2 is not None and r2 is not node and g < 4:
+                r2 = _mapped_root(r2)
+                g += 1
+            if r2 is not node:
+                continue
+            mapped = True
         sty = _node_ty(fn, subj)
         sv = success_value(sty)
         if sv is None:
             continue
         t = fn.term(b)
         listed = set(v for (v, _) in t["targets"])
+        bad_ = [] if mapped else bad
+        nbad = []
         for (v, tgt) in t["targets"]:
-            (good if v == sv else bad).append((b, tgt))
+            (good if v == sv else (bad_ if not mapped else nbad)).append((b, tgt))
         # otherwise arm: success only if sv not listed and the enum has exactly two variants
         if sv not in listed:
             good.append((b, t["otherwise"]))
         else:
             # failure or unreachable
-            bad.append((b, t["otherwise"]))
+            (bad_ if not mapped else nbad).append((b, t["otherwise"]))
+        if mapped:
+            good = [e for e in good if e not in nbad]
     for (b, tt, ft, c) in bool_switches(fn):
         if c.kind == "call" and c.kids and _outcome_root(c.kids[0]) is node:
             nm = c.d["term"].get("name")
@@ -148,6 +190,36 @@ def guarded(fn, site_bb, good_edges, entry=0, removed=()):
     if not good_edges:
         return False
     return site_bb not in cfg.reachable(fn, [entry], removed_edges=list(good_edges) + list(removed))
+
+
+def guarded_ps(fn, site_bb, good_edges):
+    """`guarded`, or guarded through a correlated Option/Result: the site is dominated by the Some/Ok edge of a switch on a merged value
+    whose Some/Ok alternatives are all built in blocks that are themselves guarded by good_edges
+    (`let d = if found { Some(x) } else { None }; ..; if let Some(x) = d { use }`: the use happens only where `found` held)"""
+    if guarded(fn, site_bb, good_edges):
+        return True
+    if not good_edges:
+        return False
+    for (b, subj) in discr_switches(fn):
+        s = peel(subj)
+        if s.kind != "phi":
+            continue
+        alts = [peel(k) for k in s.kids if k.kind != "cycle"]
+        if not alts or not all(a.kind == "agg" and a.d["agg"].get("variant") in ("Some", "None", "Ok", "Err") for a in alts):
+            continue
+        adt = alts[0].d["agg"].get("adt")
+        sv = 1 if adt == OPTION else 0
+        t = fn.term(b)
+        listed = [v for (v, _) in t["targets"]]
+        tgt = [tg for (v, tg) in t["targets"] if v == sv]
+        if not tgt and sv not in listed:
+            tgt = [t["otherwise"]]
+        if not tgt or not guarded(fn, site_bb, [(b, tgt[0])]):
+            continue
+        succ = [a for a in alts if a.d["agg"].get("variant") in ("Some", "Ok")]
+        if succ and all(a.d.get("bb") is not None and guarded(fn, a.d["bb"], good_edges) for a in succ):
+            return True
+    return False
 
 
 def option_valuation_edges(fn, val):
@@ -422,21 +494,44 @@ FLIP = {"Lt": "Gt", "Le": "Ge", "Gt": "Lt", "Ge": "Le", "Eq": "Eq", "Ne": "Ne"}
 
 def is_len_of(v, target):
     v = peel(v)
-    if v.kind == "call" and v.d["term"].get("name") == "len" and v.kids and peel_container(v.kids[0]) is target:
+    if v.kind == "call" and v.d["term"].get("name") == "len" and v.kids and peel_container(v.kids[0], target) is target:
         return True
-    if v.kind == "unop" and v.d["op"] == "PtrMetadata" and peel_container(v.kids[0]) is target:
+    if v.kind == "unop" and v.d["op"] == "PtrMetadata" and peel_container(v.kids[0], target) is target:
         return True
     return False
 
 
-def peel_container(v):
-    """peel alias calls + as_slice/deref so that &Vec, &[T] views of the same collection coincide"""
-    return peel(v)
+def peel_container(v, target=None):
+    """peel alias calls + as_slice/deref so that &Vec, &[T] views of the same collection coincide; when the target is a JSON value,
+    its map / vector seen through `as_object` / `as_array` / a `Value::Object` / `Value::Array` pattern is the same collection"""
+    v = peel(v)
+    if target is None or v is target:
+        return v
+    from val import same as _same
+    if v.fn is target.fn and _same(v, target):
+        return target
+    x = v
+    g = 0
+    while g < 6 and x is not target:
+        if x.fn is target.fn and _same(x, target):
+            return target
+        g += 1
+        if x.kind in ("variant", "field", "alias") and x.kids:
+            x = peel(x.kids[0])
+        elif x.kind == "call" and x.d["term"].get("name") in ("as_object", "as_array", "branch", "ok_or", "ok_or_else", "as_ref", "unwrap", "expect") and x.kids:
+            x = peel(x.kids[0])
+        else:
+            break
+    return x if x is target else v
 
 
-def length_sets(fn, target):
-    """forward dataflow: block -> set of possible lengths of the (immutable) collection node `target` at block entry."""
+def length_sets(fn, target, removed=None):
+    """forward dataflow: block -> set of possible lengths of the (immutable) collection node `target` at block entry.
+    `removed`: CFG edges assumed infeasible (the value graph is rebuilt without them, so merges with dead alternatives collapse)."""
     fv = vals(fn)
+    if removed:
+        from val import FnVals
+        fv = FnVals(fn, removed_edges=removed)
     state = {0: TOP}
     work = [0]
     # precompute edge refinements
@@ -466,7 +561,7 @@ def length_sets(fn, target):
                     op = FLIP[op]
                 if c is not None:
                     st, sf = _cmp_set(op, c, True), _cmp_set(op, c, False)
-            elif d.kind == "call" and d.d["term"].get("name") == "is_empty" and d.kids and peel_container(d.kids[0]) is target:
+            elif d.kind == "call" and d.d["term"].get("name") == "is_empty" and d.kids and peel_container(d.kids[0], target) is target:
                 st, sf = {0}, set(range(1, 7))
             if st is not None and tt != ft:
                 refine[(b, tt)] = st
@@ -483,6 +578,8 @@ def length_sets(fn, target):
         b = work.pop()
         cur = state[b]
         for s in fn.succs(b):
+            if removed and (b, s) in removed:
+                continue
             new = cur
             r = refine.get((b, s))
             if r is not None:
